@@ -384,6 +384,18 @@ func c15R7(p *Prog, r *Report) {
 			}
 			d = divModNormalise(pc, d)
 		}
+		// the timestamp item declares the width of its counter in bits (third byte): the decoder
+		// masks the counter to that width, so it must be the width of the value written last
+		if name == "tlvTIMESTAMPUNIT" && end-i >= 4 {
+			last := rest[end-1]
+			if nb, isC := constInt(stripConv(rest[i+2].val)); isC && last.size != nil {
+				if sz, isK := last.size.IsConst(); isK {
+					r.Check(nb == 8*sz, "C15.R7", "TLV "+name+": the declared counter width equals the width of the counter written", p.InstrPos(rest[i+2].in),
+						fmt.Sprintf("%d bits declared, %d bytes written", nb, sz),
+						fmt.Sprintf("the item declares a %d-bit counter but writes %d bytes of it: the decoder masks the counter to the declared width, so the upper bits of the time stamp are lost on a round trip", nb, sz))
+				}
+			}
+		}
 		sort.Strings(parts)
 		r.Check(d.IsZero(), "C15.R7", key, p.InstrPos(T.in),
 			"sum of the item's writes ("+strings.Join(parts, " + ")+") equals 8 x ("+pc.Of(stripConv(rest[i+1].val)).String()+") identically",
